@@ -33,7 +33,7 @@ STATE_MEASURE = "(method, order vs length class, operation kinds before the judg
 PROBES = [
     "node_exact", "between_nodes", "first_interval", "last_interval", "outside_refused", "interp_after_inplace_frame_change", "interp_after_inplace_form_change",
     "interp_after_setting_change", "interp_after_pickle", "interp_after_copy", "interp_next_to_suspended_iteration", "polynomial_reproduced", "too_short_table_refused", "node_exact_to_rounding_linear", "converted_copy_taken",
-    "cache_dropped",
+    "cache_dropped", "other_ephemeris_used_in_the_same_process", "interp_after_other_ephemeris", "column_extracted_and_changed", "interp_after_column_changed",
 ]
 REAL_VS_STUB = "real: beyond.orbits.ephem.Ephem, beyond.utils.interp (Interp / DatedInterp), StateVector frame / form conversions, pickle; stub: none; model: a fresh Ephem rebuilt from the current points on a pristine node, the stored points themselves (node exactness), the generating polynomial"
 ASSUMPTIONS = [
@@ -90,6 +90,15 @@ def gen_plan(rng, tier, i):
         elif k == "iter_next":
             op["n"] = rng.randint(1, 4)
         ops.append(op)
+    import random
+
+    child = random.Random("c09-child:" + repr(spec["jseed"]) + repr(len(ops)))  # operations added after the first version: own generator, earlier plans keep their draws
+    if child.random() < 0.3:
+        # another ephemeris alive in the same process: same dates at both ends of many interpolation windows, other dates (and values) inside
+        ops.insert(child.randint(0, max(0, len(ops) // 2)), {"op": "decoy", "seed": child.randrange(1 << 30), "p": child.choice([0.25, 0.4, 0.6]), "shift": child.choice([0.3, -0.3, 0.11])})
+    if child.random() < 0.25:
+        # the caller extracts a column (the example of the class docstring) and works on it in place
+        ops.insert(child.randint(0, len(ops)), {"op": "column_scribble", "col": child.choice([0, 1, 2, 3, 5, "0:3", "all"]), "factor": child.choice([1e-3, 0.0, -1.0])})
     return {"knobs": {"spec": spec}, "ops": ops}
 
 
@@ -149,7 +158,7 @@ def build_ephem(node, spec):
 
 
 def describe_points(eph):
-    return [(np.array(p, dtype=float).tobytes(), p.form.name, p.frame.name, (p.date._d, float(p.date._s).hex(), p.date.scale.name)) for p in eph]
+    return [(np.array(p, dtype=float).tobytes(), p.form.name, p.frame.name, (p.date.d, float(p.date.s).hex(), p.date.scale.name)) for p in eph]
 
 
 class World:
@@ -225,7 +234,7 @@ class World:
                 date = pts[0].date - td(microseconds=op["out_us"])
             else:
                 date = pts[-1].date + td(microseconds=op["out_us"])
-            dkey = (date._d, float(date._s).hex(), date.scale.name)
+            dkey = (date.d, float(date.s).hex(), date.scale.name)
             try:
                 r = e.interpolate(date)
                 exc = None
@@ -238,7 +247,7 @@ class World:
         if self.since:
             ctx.nontrivial = True
             for s_ in self.since:
-                ctx.probe({"frame": "interp_after_inplace_frame_change", "form": "interp_after_inplace_form_change", "setting": "interp_after_setting_change", "pickle": "interp_after_pickle", "copy": "interp_after_copy", "iter": "interp_next_to_suspended_iteration", "cache": "cache_dropped"}[s_])
+                ctx.probe({"frame": "interp_after_inplace_frame_change", "form": "interp_after_inplace_form_change", "setting": "interp_after_setting_change", "pickle": "interp_after_pickle", "copy": "interp_after_copy", "iter": "interp_next_to_suspended_iteration", "cache": "cache_dropped", "decoy": "interp_after_other_ephemeris", "column": "interp_after_column_changed"}[s_])
         ctx.state(method, "short" if npts < need else ("tight" if npts == need else "long"), w, hist)
         if w in ("before", "after"):
             if not isinstance(exc, ValueError):
@@ -376,7 +385,7 @@ class World:
                     return
                 e = self.eph
                 method, order = str(e.method).lower(), int(e.order)
-                dkey = (p.date._d, float(p.date._s).hex(), p.date.scale.name)
+                dkey = (p.date.d, float(p.date.s).hex(), p.date.scale.name)
                 got = np.array(p, dtype=float)
             try:
                 fv, _, _ = self.fresh_value(dkey, method, order)
@@ -418,6 +427,58 @@ class World:
         self.since.add("copy")
         if before != after or shared:
             ctx.violate("history-independence", {"kind": "source_changed_by_converted_copy", "size": "large"}, f"{where}: ephem.copy({kw}) {'shares point objects with' if shared else 'changed the points of'} the ephemeris it was taken from")
+
+    def op_decoy(self, op, where):
+        """A second ephemeris is built and used in the same process (the points of the table under test, some inner ones re-dated and
+        re-valued): nothing of it may show in the ephemeris under test."""
+        n = self.node
+        rs = np.random.RandomState(op["seed"])
+        with n:
+            e = self.eph
+            pts = list(e)
+            if len(pts) < 3:
+                return
+            method, order = str(e.method).lower(), int(e.order)
+            new = []
+            for q, pt in enumerate(pts):
+                c = pt.copy()
+                if 0 < q < len(pts) - 1 and rs.uniform() < op["p"]:
+                    dt = (pts[q + 1].date - pt.date).total_seconds() if op["shift"] > 0 else (pt.date - pts[q - 1].date).total_seconds()
+                    c = n.StateVector(np.array(pt, dtype=float) * (1.0 + 0.01 * rs.uniform(-1, 1)), pt.date + n.timedelta(seconds=round(dt * op["shift"], 3)), pt.form, pt.frame)
+                new.append(c)
+            decoy = None
+            try:
+                decoy = n.Ephem(new, method=method, order=order)
+                for q in range(len(new) - 1):
+                    decoy.interpolate(new[q].date)
+                    decoy.interpolate(new[q].date + n.timedelta(seconds=round((new[q + 1].date - new[q].date).total_seconds() * 0.5, 3)))
+            except ValueError:
+                pass
+        self.decoy = decoy  # stays alive
+        self.ctx.probe("other_ephemeris_used_in_the_same_process")
+        self.ctx.fault("other_object_in_process")
+        self.since.add("decoy")
+
+    def op_column_scribble(self, op, where):
+        """cols = ephem[:, k] (numpy-style column selection, class docstring), then the caller changes what it was given in place."""
+        ctx = self.ctx
+        with self.node:
+            e = self.eph
+            before = describe_points(e)
+            col = op["col"]
+            try:
+                arr = e[:, :] if col == "all" else (e[:, 0:3] if col == "0:3" else e[:, int(col)])
+                arr *= op["factor"]
+            except Exception as ex:  # noqa
+                ctx.violate("interpolation", {"kind": "unexpected_exception", "exc": type(ex).__name__, "op": "column"}, f"{where}: ephem[:, {col}] raised {type(ex).__name__}: {ex}")
+                return
+            after = describe_points(e)
+        ctx.checks += 1
+        ctx.probe("column_extracted_and_changed")
+        ctx.fault("consumer_mutates_item")
+        self.since.add("column")
+        if before != after:
+            ctx.violate("history-independence", {"kind": "points_changed_through_extracted_column", "size": "large"}, f"{where}: changing the array returned by ephem[:, {col}] changed the points of the ephemeris")
 
     def op_pickle(self, op, where):
         with self.node:
